@@ -40,13 +40,66 @@ def cases(draw):
         nv = 4 if d == 3 else 3
         case["spins"] = [[draw(st.integers(0, nv - 1)) for _ in sp] for sp in rec["basis"]]
         case["spinkind"] = "vector"
+    if kind == "none" and draw(st.floats(0, 1)) < 0.25:
+        # symmetric vector-spin texture: a seed spin on one atom, transported by a subgroup of the (spinless) crystal's
+        # operations (own brute-force group) -- gives crystals whose magnetic group still contains 3-, 4-, 6-fold operations
+        case["spinkind"] = "texture"
+        case["texture"] = {"atom": draw(st.integers(0, 50)), "ops": [draw(st.integers(0, 200)) for _ in range(2)],
+                           "v": [draw(st.sampled_from([1., 0., -1., 0.5])) for _ in range(d)], "axial": draw(st.booleans())}
     if draw(st.sampled_from([False, False, True])):
         comp = draw(st.sampled_from(list(itertools.combinations_with_replacement(range(d), 2))))
         case["strain"] = [list(comp), draw(st.sampled_from(STRAINS))]
     return case
 
 
+def _texture(case):
+    """vector spins from the texture recipe: group average over the chosen subgroup (polar-vector rule s -> R s, the rule
+    the constructor documents for vector spins)"""
+    rec = case["recipe"]
+    L = np.array(rec["lattice"], dtype=float)
+    atoms = [(c, np.array(u, dtype=float)) for c, sp in enumerate(rec["basis"]) for u in sp]
+    ops = geom.space_group(L, atoms)
+    t = case["texture"]
+    gens = [ops[k % len(ops)] for k in t["ops"]]
+    # closure of the generators
+    def mul(a, b):
+        return (a[0] @ b[0], np.mod(a[0] @ b[1] + a[1], 1.0), tuple(a[2][b[2][n]] for n in range(len(atoms))))
+    H = [ops[0].__class__((np.eye(L.shape[0], dtype=int), np.zeros(L.shape[0]), tuple(range(len(atoms)))))]
+    frontier = list(H)
+    def key(o):
+        return (tuple(o[0].flatten()), o[2])
+    seen = {key(H[0])}
+    while frontier and len(H) < 96:
+        new = []
+        for h in frontier:
+            for g in gens:
+                p_ = mul(g, h)
+                if key(p_) not in seen:
+                    seen.add(key(p_))
+                    H.append(p_)
+                    new.append(p_)
+        frontier = new
+    a0 = t["atom"] % len(atoms)
+    v = np.array(t["v"], dtype=float)
+    if np.linalg.norm(v) < 1e-9:
+        v = np.eye(L.shape[0])[0]
+    acc = [np.zeros(L.shape[0]) for _ in atoms]
+    cnt = [0] * len(atoms)
+    for h in H:
+        R = geom.cartrot(L, h[0])
+        acc[h[2][a0]] += R @ v
+        cnt[h[2][a0]] += 1
+    spins = [(acc[n] / cnt[n] if cnt[n] else np.zeros(L.shape[0])) for n in range(len(atoms))]
+    out, n = [], 0
+    for sp in rec["basis"]:
+        out.append([np.round(spins[n + k], 12) for k in range(len(sp))])
+        n += len(sp)
+    return out, len(H)
+
+
 def _spins(case):
+    if case.get("spinkind") == "texture":
+        return _texture(case)[0]
     if case.get("spins") is None:
         return None
     d = len(case["recipe"]["lattice"])
@@ -132,6 +185,9 @@ def check_group(crys, label=""):
         t = np.asarray(g.rot) @ np.asarray(h.trans) + np.asarray(g.trans)
         im = tuple(tuple(g.indexmap[c][h.indexmap[c][i]] for i in range(len(crys.basis[c]))) for c in range(len(crys.basis)))
         require(find(R, t, im), lambda: "%sproduct of rot %s and rot %s (with composed index map) is not in the group" % (label, np.asarray(g.rot).tolist(), np.asarray(h.rot).tolist()))
+        gh = g * h
+        require(np.all(np.asarray(gh.rot) == R) and gh.indexmap == im and np.abs(np.asarray(gh.trans) - t).max() < 1e-9,
+                lambda: "%sg*h does not carry the composed rotation/translation/index map of g after h (rot %s, %s)" % (label, np.asarray(g.rot).tolist(), np.asarray(h.rot).tolist()))
 
 
 def check(case):
@@ -179,8 +235,10 @@ def check(case):
             classes.append("strain_G%d" % len(scrys.G))
     if spins is not None:
         classes.append("spins_" + case["spinkind"])
+        if case["spinkind"] == "texture":
+            classes.append("texture_G%d" % len(crys.G))
     nt = (len(crys.G) > 1 and crys.N >= 2) or spins is not None or case["nosym"] or case.get("strain") is not None
-    return {"key": canon([rec["lattice"], rec["basis"], case.get("spins"), case["nosym"], case.get("strain")]), "nontrivial": nt, "classes": classes,
+    return {"key": canon([rec["lattice"], rec["basis"], case.get("spins"), case.get("texture"), case["nosym"], case.get("strain")]), "nontrivial": nt, "classes": classes,
             "sample": {"name": rec["name"], "lattice": rec["lattice"], "basis": rec["basis"], "spins": case.get("spins"), "nosym": case["nosym"], "strain": case.get("strain"), "order": len(crys.G)}}
 
 
